@@ -293,7 +293,7 @@ Proof.
     assert (Hpos : (0 <? Z.of_N (helo_state (esmtp s')))%Z = true) by (unfold helo_state; destruct (esmtp s'); reflexivity).
     rewrite Hpos. rewrite N2Z.id. split; cbn [set_badcmds set_comstate esmtp comstate]; [exact K1|].
     unfold helo_state. destruct (esmtp s'); [intros _; auto|discriminate].
-  - (* STARTTLS *) inversion H; subst. apply Kq; [reflexivity|apply keeps_refl].
+  - (* STARTTLS *) destruct (negb (esmtp s)); inversion H; subst; apply Kq; first [reflexivity|apply keeps_refl].
   - (* AUTH *)
     apply andb_true_iff in Hrow as [_ Hst].
     assert (Hst' : (Z.ltb st 0 || (Z.eqb st 0 && negb (Nat.eqb i 4)) || (Z.ltb 0 st && negb (Z.eqb st 16))) = true) by (rewrite Hst; reflexivity).
